@@ -7,10 +7,11 @@
 //! classes) is printed in a plain S-expression form.  Classes may be written as literals, named
 //! classes or ranges in the text; the abstract program carries the expanded glyph lists.
 //!
-//! Streams: `c11` (programs inside the subset for which `compile_correct` is proved),
-//!          `c11x` (additionally: runs of mixed single/multiple/ligature rules outside lookup
-//!                 blocks, repeated targets — constructs on which fea-rs is known to differ from a
-//!                 rule-by-rule reading of the source; advisory).
+//! Streams: `c11`    programs inside the subset for which `compile_correct` is proved;
+//!          `c11x`   the same, but inline contextual rules may share glyphs / sequences freely
+//!                   (ordinary feature code that exposes the defects of the anonymous lookups);
+//!          `c11adv` additionally runs of mixed single/multiple/ligature rules outside lookup blocks
+//!                   and repeated targets (outside the claim; not part of the check).
 use crate::rng::Rng;
 use crate::sexp::S;
 use crate::Args;
@@ -454,8 +455,12 @@ pub fn print_fea(p: &Program, style_seed: u64) -> String {
 
 #[derive(Clone, Copy)]
 pub struct GenOpts {
-    /// allow runs that mix single with multiple/ligature rules outside lookup blocks, and repeated targets
+    /// allow runs that mix single with multiple/ligature rules outside lookup blocks, and repeated
+    /// targets (outside the modelled subset; advisory stream only)
     pub extended: bool,
+    /// let inline contextual rules share glyphs / sequences freely (exposes the defects of the
+    /// anonymous lookups); when false the generator stays where the property is proved
+    pub free_inline: bool,
 }
 
 struct Gen<'a> {
@@ -533,7 +538,7 @@ impl<'a> Gen<'a> {
                     let free: Vec<G> = self.marks.iter().copied().filter(|m| !used.contains(m)).collect();
                     if !free.is_empty() {
                         let k = 1 + self.rng.below(free.len().min(2));
-                        let c: Vec<G> = free[..k].to_vec();
+                        let c: Vec<G> = sorted(&free[..k]);
                         self.attach_classes.push(c);
                     }
                 }
@@ -550,7 +555,7 @@ impl<'a> Gen<'a> {
                     if self.rng.chance(1, 4) {
                         c.push(self.letter());
                     }
-                    self.filter_classes.push(c);
+                    self.filter_classes.push(sorted(&c));
                 }
                 f.filter = Some(self.rng.pick(&self.filter_classes).clone());
             }
@@ -661,8 +666,92 @@ impl<'a> Gen<'a> {
                 }
             }
             Kind::Chain => {
-                for _ in 0..n {
-                    out.push(self.chain_rule());
+                // inline replacements of the lookup so far (they share anonymous lookups)
+                let mut singles: Vec<(G, G)> = vec![];
+                let mut ligs: Vec<(Vec<G>, G)> = vec![];
+                let mut tries = 0;
+                while out.len() < n && tries < 40 {
+                    tries += 1;
+                    let mut r = self.chain_rule();
+                    // colliding inline rules (only where they are allowed to collide)
+                    if self.opts.free_inline && self.rng.chance(1, 2) {
+                        let prev: Vec<Rule> = out.iter().filter(|r| matches!(r, Rule::Chain { inline: Inline::Single(_) | Inline::Lig(_), .. })).cloned().collect();
+                        if !prev.is_empty() {
+                            if let Rule::Chain { input, inline, .. } = self.rng.pick(&prev).clone() {
+                                let back = self.ctx_seq(1);
+                                let look = self.ctx_seq(1);
+                                match inline {
+                                    Inline::Single(_) => {
+                                        let mut c = input[0].0.glyphs();
+                                        let extra = self.glyph();
+                                        if !c.contains(&extra) {
+                                            if self.rng.chance(1, 2) { c.insert(0, extra) } else { c.push(extra) }
+                                        }
+                                        if c.len() >= 2 {
+                                            r = Rule::Chain { back, input: vec![(GC::C(c), vec![])], look, inline: Inline::Single(GC::G(self.glyph())) };
+                                        }
+                                    }
+                                    Inline::Lig(_) => {
+                                        let mut inp = input.clone();
+                                        match self.rng.below(3) {
+                                            0 => inp.push((GC::G(self.glyph()), vec![])),
+                                            1 => {
+                                                let g0 = inp[0].0.glyphs();
+                                                let mut c = g0.clone();
+                                                let extra = self.glyph();
+                                                if !c.contains(&extra) { c.insert(0, extra); }
+                                                inp[0].0 = if c.len() == 1 { GC::G(c[0]) } else { GC::C(c) };
+                                            }
+                                            _ => {}
+                                        }
+                                        r = Rule::Chain { back, input: inp, look, inline: Inline::Lig(self.glyph()) };
+                                    }
+                                    _ => {}
+                                }
+                            }
+                        }
+                    }
+                    if let Rule::Chain { input, inline, .. } = &r {
+                        match inline {
+                            Inline::Single(by) => {
+                                let t = &input[0].0;
+                                let (t2, by2) = match (t, by) {
+                                    (GC::C(a), GC::C(b)) if b.len() == 1 => (GC::C(a.clone()), GC::G(b[0])),
+                                    _ => (t.clone(), by.clone()),
+                                };
+                                let pairs: Vec<(G, G)> = match (&t2, &by2) {
+                                    (GC::G(a), GC::G(b)) => vec![(*a, *b)],
+                                    (GC::C(a), GC::G(b)) => a.iter().map(|x| (*x, *b)).collect(),
+                                    (GC::C(a), GC::C(b)) => a.iter().copied().zip(b.iter().copied()).collect(),
+                                    _ => vec![],
+                                };
+                                let class_to_glyph = matches!((&t2, &by2), (GC::C(_), GC::G(_)));
+                                if !self.opts.free_inline
+                                    && class_to_glyph
+                                    && pairs.iter().any(|(a, b)| singles.iter().any(|(a2, b2)| a == a2 && b != b2))
+                                {
+                                    continue;
+                                }
+                                singles.extend(pairs);
+                            }
+                            Inline::Lig(l) => {
+                                let seqs = enumerate(&input.iter().map(|(g, _)| g.clone()).collect::<Vec<_>>());
+                                let prefix = |a: &Vec<G>, b: &Vec<G>| a.len() < b.len() && b[..a.len()] == a[..];
+                                let bad = seqs.iter().any(|sq| {
+                                    ligs.iter().any(|(s2, l2)| (sq == s2 && l != l2) || prefix(sq, s2) || prefix(s2, sq))
+                                });
+                                if !self.opts.free_inline && bad {
+                                    continue;
+                                }
+                                ligs.extend(seqs.into_iter().map(|sq| (sq, *l)));
+                            }
+                            _ => {}
+                        }
+                    }
+                    out.push(r);
+                }
+                if out.is_empty() {
+                    out.push(Rule::Ignore(vec![(vec![], vec![GC::G(self.glyph())], vec![])]));
                 }
             }
             Kind::SinglePos => {
@@ -817,7 +906,7 @@ impl<'a> Gen<'a> {
         if gpos {
             if self.rng.chance(1, 2) { Kind::SinglePos } else { Kind::PairPos }
         } else {
-            match self.rng.below(10) {
+            match self.rng.below(if self.opts.free_inline && !self.opts.extended { 14 } else { 10 }) {
                 0..=2 => Kind::Single,
                 3 | 4 => Kind::Ligature,
                 5 => Kind::Multiple,
@@ -835,7 +924,8 @@ impl<'a> Gen<'a> {
         let n = 1 + self.rng.below(4);
         let mut rules = self.rules(kind, n);
         // inside a named block single rules may be mixed with multiple / ligature rules
-        if matches!(kind, Kind::Multiple | Kind::Ligature) && self.rng.chance(1, 3) {
+        let has_delete = rules.iter().any(|r| matches!(r, Rule::Multiple(_, b) if b.is_empty()));
+        if matches!(kind, Kind::Multiple | Kind::Ligature) && !has_delete && self.rng.chance(1, 3) {
             let n_extra = 1 + self.rng.below(2);
             let extra = self.rules(Kind::Single, n_extra);
             let targets: Vec<G> = rules
@@ -972,8 +1062,11 @@ impl<'a> Gen<'a> {
                 self.rng.shuffle(&mut langs);
                 let nl = self.rng.below(langs.len() + 1);
                 for l in langs.into_iter().take(nl) {
-                    out.push(Stmt::Language(l, self.rng.chance(1, 3)));
-                    if self.rng.chance(3, 4) {
+                    let excl = self.rng.chance(1, 3);
+                    out.push(Stmt::Language(l, excl));
+                    // `language X exclude_dflt;` with nothing after it registers nothing for X
+                    // (kept at a low rate: the driver reports it as outside the claim)
+                    if self.rng.chance(3, 4) || (excl && self.rng.chance(9, 10)) {
                         self.segment(gpos, &mut out);
                     }
                 }
@@ -1719,10 +1812,14 @@ fn rand_strings(rng: &mut Rng, p: &Program) -> Vec<Vec<G>> {
 
 pub fn run(stream: &'static str, args: &Args) {
     let seed = args.seed;
-    let extended = stream == "c11x";
+    let opts = match stream {
+        "c11x" => GenOpts { extended: false, free_inline: true },
+        "c11adv" => GenOpts { extended: true, free_inline: true },
+        _ => GenOpts { extended: false, free_inline: false },
+    };
     crate::run_cases(stream, args, move |i| {
         let mut rng = Rng::for_case(seed, stream, i);
-        let p = gen_program(&mut rng, GenOpts { extended });
+        let p = gen_program(&mut rng, opts);
         let fea = print_fea(&p, rng.next());
         let rs = rand_strings(&mut rng, &p);
         case_fields(&p, &fea, &rs)
